@@ -31,7 +31,12 @@ var c18ArgLists = []c18Args{
 	{`, "é"`, []refsem.Value{refsem.Str("é")}},
 	{`, null`, []refsem.Value{refsem.Null()}},
 	{`, -12.25, "x", true`, []refsem.Value{refsem.Num(-12.25), refsem.Str("x"), refsem.Bool(true)}},
+	{`, true`, []refsem.Value{refsem.Bool(true)}},
+	{`, {k: 1}, "s"`, []refsem.Value{func() refsem.Value { o := refsem.NewObj(); o.O.Set("k", refsem.Num(1)); return o }(), refsem.Str("s")}},
 }
+
+// kinds whose rendering is not fixed but which %s and %f must still refuse (checked for refusal only)
+var c18RefuseArgs = []string{`/a+b/`, `printf`, `un`}
 
 type c18Spec struct {
 	Fmt  string `json:"fmt"`
@@ -90,14 +95,14 @@ func c18Class(f string) string {
 func init() {
 	fw.Register(&fw.Prop{
 		ID: "C18",
-		Rule: "every format string of length <= L over the symbols % s f v d - 0 3 x, times 10 argument lists, plus a width sweep across the 65536 limit; " +
+		Rule: "every format string of length <= L over the symbols % s f v d - 0 3 x, times 12 argument lists, plus a width sweep across the 65536 limit; " +
 			"a state is a directive-shape class of a format (e.g. %-ws%0wv); non-trivial = classes the model formats successfully with at least one argument list; each case compares exact stdout and outcome with the reference formatter",
 		Plan: func(t fw.Tier) int { return 82 },
 		Bound: func(t fw.Tier) string {
 			if t == fw.Thorough {
-				return "all formats of length <= 7 over 9 symbols x 10 argument lists; widths -65540..65540 swept"
+				return "all formats of length <= 7 over 9 symbols x 12 argument lists; widths -65540..65540 swept"
 			}
-			return "all formats of length <= 6 over 9 symbols x 10 argument lists; widths -65540..65540 swept"
+			return "all formats of length <= 6 over 9 symbols x 12 argument lists; widths -65540..65540 swept"
 		},
 		Assumptions: []string{"reference formatter refsem.Printf written from DESIGN.md 3.15", "string form of numbers is strconv 'f' -1 (checked separately by C17)"},
 		Run: func(c *fw.Ctx, u int) {
@@ -148,6 +153,14 @@ func init() {
 			rec(0)
 		},
 		Replay: func(c *fw.Ctx, raw json.RawMessage) *fw.Violation {
+			var pr struct {
+				Program string  `json:"program"`
+				Fmt     *string `json:"fmt"`
+			}
+			if json.Unmarshal(raw, &pr) == nil && pr.Program != "" && pr.Fmt == nil {
+				s := drive.Spec{Program: pr.Program}
+				return expect(s, run(c, s), "before\n", drive.KRuntime, "%s / %f given a regex, a function or an unset value")
+			}
 			var st struct {
 				Stream bool `json:"stream"`
 				Rev    bool `json:"rev"`
@@ -269,6 +282,18 @@ func c18Sweep(c *fw.Ctx) {
 			c.Do(func() any { return c18Spec{Fmt: f, Args: 1} }, func() *fw.Violation { return c18Check(c, f, 1) })
 			g := "%-" + strconv.Itoa(w) + "v" + tail
 			c.Do(func() any { return c18Spec{Fmt: g, Args: 1} }, func() *fw.Violation { return c18Check(c, g, 1) })
+		}
+	}
+	// %s and %f refuse every argument that is not a string / number, whatever its internal representation
+	for _, a := range c18RefuseArgs {
+		for _, f := range []string{"[%s]", "[%5s]", "[%f]", "[%-3f]", "%s%v", "x%f"} {
+			prog := `BEGIN { print "before"; printf("` + f + `", ` + a + `); print "after" }`
+			s := drive.Spec{Program: prog}
+			c.Do(func() any { return map[string]string{"program": prog} }, func() *fw.Violation {
+				o := run(c, s)
+				c.Traces++
+				return expect(s, o, "before\n", drive.KRuntime, "%s / %f given a regex, a function or an unset value")
+			})
 		}
 	}
 	// widths of 20 and more digits, and zero-padded width texts
